@@ -44,15 +44,18 @@ type c18Cfg struct {
 	SSL      bool
 	Server   c18Server
 	PingFreq time.Duration
+	Tracking bool // state tracking enabled
+	Welcome  bool // the server sends the 001 welcome (confirming nick and ident) on every connect
 }
 
 func (c c18Cfg) String() string {
 	return fmt.Sprintf("NewConfig(%s) pass=%s negotiation=%v ssl=%v server=%s pingfreq=%s",
-		map[bool]string{false: `"me"`, true: `"me","myident","My Real Name"`}[c.Given], Q(c.Pass), c.Cap, c.SSL, Q(c.Server.Addr), c.PingFreq)
+		map[bool]string{false: `"me"`, true: `"me","myident","My Real Name"`}[c.Given], Q(c.Pass), c.Cap, c.SSL, Q(c.Server.Addr), c.PingFreq) +
+		fmt.Sprintf(" tracking=%v welcome=%v", c.Tracking, c.Welcome)
 }
 
 func (c c18Cfg) params() map[string]interface{} {
-	return map[string]interface{}{"given": c.Given, "pass": c.Pass, "negotiation": c.Cap, "ssl": c.SSL, "server": c.Server.Addr, "pingfreq": c.PingFreq.String()}
+	return map[string]interface{}{"given": c.Given, "pass": c.Pass, "negotiation": c.Cap, "ssl": c.SSL, "server": c.Server.Addr, "pingfreq": c.PingFreq.String(), "tracking": c.Tracking, "welcome": c.Welcome}
 }
 
 func (c c18Cfg) build() *client.Config {
@@ -129,6 +132,9 @@ func c18RunConfig(e *Enum, c c18Cfg) {
 		cfg := c.build()
 		wantNick, wantIdent, wantName = cfg.Me.Nick, cfg.Me.Ident, cfg.Me.Name
 		cl := client.Client(cfg)
+		if c.Tracking {
+			cl.EnableStateTracking()
+		}
 		for _, ev := range []string{client.REGISTER, client.CONNECTED, client.DISCONNECTED} {
 			ev := ev
 			cl.HandleFunc(ev, func(*client.Conn, *client.Line) { events = append(events, ev) })
@@ -156,6 +162,11 @@ func c18RunConfig(e *Enum, c c18Cfg) {
 			vx.Quiesce()
 			connAt[cy] = env.Now()
 			regLines[cy] = append([]string{}, vc.Lines()...)
+			if c.Welcome {
+				vc.SendLines(fmt.Sprintf(":irc.example 001 %s :Welcome %s!%s@host.example", wantNick, wantNick, wantIdent))
+				vx.Quiesce()
+				_ = cl.Me()
+			}
 			vx.Sleep(c18Window)
 			vc.EOF()
 			vx.Quiesce()
@@ -277,9 +288,14 @@ func c18ConfigJob(srv c18Server, ssl bool, pf time.Duration) Job {
 		for _, given := range []bool{false, true} {
 			for _, pass := range []string{"", "sekrit"} {
 				for _, cp := range []bool{false, true} {
-					c := c18Cfg{Given: given, Pass: pass, Cap: cp, SSL: ssl, Server: srv, PingFreq: pf}
-					e.Case(c.String())
-					c18RunConfig(e, c)
+					for _, tw := range [][2]bool{{false, false}, {true, false}, {false, true}, {true, true}} {
+						if ssl && (tw[0] || tw[1]) {
+							continue // the TLS handshake fails by script: nothing more to see
+						}
+						c := c18Cfg{Given: given, Pass: pass, Cap: cp, SSL: ssl, Server: srv, PingFreq: pf, Tracking: tw[0], Welcome: tw[1]}
+						e.Case(c.String())
+						c18RunConfig(e, c)
+					}
 				}
 			}
 		}
@@ -297,7 +313,7 @@ type c18Ping struct {
 }
 
 func c18Tokens() []string {
-	return []string{"x", "a b", ":c", "", "a:b", "::", strings.Repeat("x", 400),
+	return []string{"x", "a b", ":c", "", "a:b", "::", strings.Repeat("x", 400), strings.Repeat("y", 5000), // 5000: longer than the client's 4096-byte read buffer
 		// more of the same kinds
 		"a :b", " x", "x ", "é", "\x01", "PONG :y", "0"}
 }
